@@ -600,6 +600,10 @@ def cssp_order(ctx, mir, stats):
     f = find_fn(mir, r"^cssp_connect$")
     writes = call_blocks(f, r"Link::<S>::write$")
     cmpb = call_blocks(f, r"<BigUint as PartialEq>::(ne|eq)$")
+    ordb = call_blocks(f, r"<BigUint as PartialOrd>::(lt|le|gt|ge)$")
+    if not cmpb and ordb:
+        return [{"id": "cssp:acceptance-is-equality", "ok": False, "functions": [f.name],
+                 "detail": "the final-round acceptance test compares with an ordering (%s) instead of equality: replies other than key + 1 are accepted" % f.blocks[ordb[0]].t["func"].split("::")[-1], "where": f.name}]
     unwrap = call_blocks(f, r"::gss_unwrapex$")
     validate = call_blocks(f, r"\bread_ts_validate$")
     reads = call_blocks(f, r"Link::<S>::read$")
@@ -1026,6 +1030,17 @@ def input_gating(ctx, mir, stats):
         if any(ev[0] == "branch" for ev in p.events) and re.search(r"Ok\(", _last_assign_to_ret(p) or ""):
             okp = True
     w = call_blocks(h, r"::write$")
+    kinds_ok = 0
+    for n in h.order:
+        b = h.blocks[n]
+        if b.cleanup or not b.t or b.t["kind"] != "switch":
+            continue
+        if any(re.search(r"= discriminant\(_\d+\)", s_) for s_ in b.stmts) and any("RdpErrorKind" in (h.locals.get(re.search(r"discriminant\((_\d+)\)", s_).group(1), "")) for s_ in b.stmts if re.search(r"discriminant\((_\d+)\)", s_)):
+            okblocks = stmt_blocks(h, r"_0 = Result::<\(\), model::error::Error>::Ok\(")
+            kinds_ok = sum(1 for lab, t in b.t["targets"] if lab != "otherwise" and any(x in bfs_reach(h, t) for x in okblocks))
+            other_ok = any(x in bfs_reach(h, dict(b.t["targets"]).get("otherwise")) for x in okblocks) if dict(b.t["targets"]).get("otherwise") else False
+            obs.append({"id": "RdpClient::try_write:only-one-kind-dropped", "ok": kinds_ok == 1 and not other_ok, "functions": [h.name],
+                        "detail": "exactly one error kind (the out-of-window refusal) is turned into Ok; every other error, incl. unsendable event kinds, is reported" if (kinds_ok == 1 and not other_ok) else "%d error kinds (otherwise-arm: %s) are swallowed by try_write" % (kinds_ok, other_ok), "where": h.name})
     obs.append({"id": "RdpClient::try_write:delegates", "ok": len(w) == 1 and okp, "functions": [h.name],
                 "detail": "try_write makes exactly one write call and maps a refusal to Ok (lenient drop); it writes nothing itself" if (len(w) == 1 and okp) else "try_write shape changed", "where": h.name})
     return obs
@@ -1405,6 +1420,9 @@ def _unwrap_order(ctx, mir, stats):
     obs.append({"id": "unwrap:plaintext-only-through-match", "ok": not r1, "functions": [f.name], "detail": "Ok(plaintext) is reachable only through the checksum-match edge" if not r1 else "Ok(plaintext) reachable without a checksum match", "where": f.name})
     r2 = fp_reachable(f, tg[badl[0]], okb[0], stats)
     obs.append({"id": "unwrap:mismatch-yields-no-plaintext", "ok": not r2, "functions": [f.name], "detail": "no Ok return is reachable from the mismatch edge" if not r2 else "mismatch edge can still return plaintext", "where": f.name})
+    seq_stores = [n for n in f.order if not f.blocks[n].cleanup and any(re.match(r"\(\(\*_1\)\.4: u32\) = ", s_) for s_ in f.blocks[n].stmts)]
+    obs.append({"id": "unwrap:send-sequence-untouched", "ok": not seq_stores, "functions": [f.name], "needs_native": True, "native": None if not seq_stores else SEAL_NATIVE,
+                "detail": "unsealing never modifies the context's send sequence number" if not seq_stores else "gss_unwrapex writes the send sequence number (blocks %s)" % seq_stores, "where": f.name})
     # dataflow on the single main path
     se = SymExec(f, stats, max_paths=5000).run()
     main = None
@@ -1550,7 +1568,18 @@ SEAL_NATIVE = _native("verif_replay_ntlm_seal", "src/nla/ntlm.rs", """
                 if seq == 0 { assert!(probe.gss_unwrapex(&t).is_err(), "tampered version word accepted"); }
             }
             assert_eq!(server.gss_unwrapex(&token).unwrap(), m.to_vec());
-        }""")
+        }
+        // unbalanced traffic: wrap, unwrap, wrap, unwrap, unwrap, wrap - each direction keeps its own counter
+        let mut a = NTLMv2SecurityInterface::new(Rc4::new(&ck), Rc4::new(&sk), csig.clone(), ssig.clone());
+        let mut b = NTLMv2SecurityInterface::new(Rc4::new(&sk), Rc4::new(&ck), ssig.clone(), csig.clone());
+        let t1 = a.gss_wrapex(b"a1").unwrap(); assert_eq!(b.gss_unwrapex(&t1).unwrap(), b"a1".to_vec());
+        let s1 = b.gss_wrapex(b"b1").unwrap(); assert_eq!(a.gss_unwrapex(&s1).unwrap(), b"b1".to_vec());
+        let t2 = a.gss_wrapex(b"a2").unwrap(); assert_eq!(b.gss_unwrapex(&t2).unwrap(), b"a2".to_vec());
+        let s2 = b.gss_wrapex(b"b2").unwrap(); let s3 = b.gss_wrapex(b"b3").unwrap();
+        assert_eq!(a.gss_unwrapex(&s2).unwrap(), b"b2".to_vec()); assert_eq!(a.gss_unwrapex(&s3).unwrap(), b"b3".to_vec());
+        let t3 = a.gss_wrapex(b"a3").unwrap();
+        assert_eq!(&t3[12..16], &[2, 0, 0, 0], "third client message carries sequence number 2");
+        assert_eq!(b.gss_unwrapex(&t3).unwrap(), b"a3".to_vec());""")
 
 
 def signature_layout(ctx, mir, stats):
@@ -1947,8 +1976,13 @@ def bitmap_dispatch(ctx, mir, stats):
             reach = [l for l, t in labs.items() if cb[0] in bfs_reach(f, t, removed_nodes={outer})]
             obs.append({"id": "read_fast_path:only-bitmap-updates-dispatch", "ok": reach == ["1"], "functions": [f.name],
                         "detail": "only FASTPATH_UPDATETYPE_BITMAP (1) leads to the callback; other kinds go on to the next update" if reach == ["1"] else "update kinds reaching the callback: %s" % reach, "where": f.name})
-            others = [l for l, t in labs.items() if l != "1" and outer not in bfs_reach(f, t) and not any(f.blocks[x].t["kind"] == "return" for x in bfs_reach(f, t))]
-            obs.append({"id": "read_fast_path:other-kinds-continue", "ok": not others, "functions": [f.name], "detail": "every other update kind continues with the next update" if not others else "kinds %s neither continue nor return" % others, "where": f.name})
+            others = [l for l, t in labs.items() if l != "1" and outer not in bfs_reach(f, t)]
+            obs.append({"id": "read_fast_path:other-kinds-continue", "ok": not others, "functions": [f.name], "detail": "every other update kind goes on to the next update of the PDU" if not others else "update kinds %s do not continue with the next update (the updates that follow are lost)" % others, "where": f.name})
+    # the size of a compressed rectangle's data comes from cbCompMainBodySize
+    c2 = find_fn(mir, r"^ts_bitmap_data::\{closure#2\}$")
+    keys = [a for n in c2.order for a in (c2.blocks[n].t["args"] if c2.blocks[n].t and c2.blocks[n].t["kind"] == "call" and re.search(r"as Index<&str>>::index$", c2.blocks[n].t["func"]) else []) if a.startswith("const")]
+    okk = keys == ['const "cbCompMainBodySize"']
+    obs.append({"id": "ts_bitmap_data:compressed-size-field", "ok": okk, "functions": [c2.name], "detail": "with a compression header the data size is cbCompMainBodySize" if okk else "data size taken from %s" % keys, "where": c2.name})
     return obs
 
 
@@ -1972,7 +2006,7 @@ def connection_sequence(ctx, mir, stats):
     # --- MCS connect
     f = find_fn(mir, r"^mcs::<impl at src/core/mcs\.rs[^>]*>::connect$")
     rel = r"write_connect_initial$|read_connect_response$|^erect_domain_request$|^attach_user_request$|^channel_join_request$|x224::Client::<S>::write|x224::Client::<S>::read$|^read_attach_user_confirm$|^read_channel_join_confirm$"
-    paths = _seq_on_success(f, stats, rel)
+    paths = _seq_on_success(f, stats, rel, loop_bound=2)
     if not paths:
         raise Inconclusive("ENCODING-FAILED: no successful path through mcs::Client::connect")
     head = ["write_connect_initial", "read_connect_response", "erect_domain_request", "x224::Client::<S>::write", "attach_user_request", "x224::Client::<S>::write", "x224::Client::<S>::read", "read_attach_user_confirm"]
@@ -2030,9 +2064,26 @@ def connection_sequence(ctx, mir, stats):
     acts = [resolve_source(best.events, i, e[4][0], depth=4) for i, e in calls_on(best.events, r"^ts_control_pdu$")]
     okf = seq == ["ts_synchronize_pdu", "ts_control_pdu", "ts_control_pdu", "ts_font_list_pdu"] and len(acts) == 2 and "CtrlactionCooperate" in acts[0] and "CtrlactionRequestControl" in acts[1]
     obs.append({"id": "write_client_finalize:order", "ok": okf, "functions": [h.name], "detail": "synchronize, control-cooperate, control-request, font-list" if okf else "finalization is %s %s" % (seq, acts), "where": h.name})
+    # the share id announced by each demand-active is the one used afterwards
+    da = find_fn(mir, r"^global::<impl at src/core/global\.rs[^>]*>::read_demand_active_pdu$")
+    sda = SymExec(da, stats, loop_bound=1, max_paths=20000).run()
+    n_true = 0
+    for p in sda.finished:
+        if not re.match(r"Result::<bool, .*>::Ok\(const true\)", _last_assign_to_ret(p) or ""):
+            continue
+        n_true += 1
+        st = [(k, e) for k, e in enumerate(p.events) if e[0] == "assign" and re.search(r"\(\(\*_1\)\.\d+: std::option::Option<u32>\)$", e[2].strip())]
+        oks = any('const "shareId"' in resolve_source(p.events, k + 1, e[3], depth=14) for k, e in st)
+        obs.append({"id": "read_demand_active_pdu:share-id-refreshed", "ok": oks, "functions": [da.name],
+                    "detail": "every accepted demand-active stores the share id it carries (used by the confirm-active and finalization PDUs)" if oks else "an accepted demand-active does not update the stored share id (stale id after a reactivation)", "where": da.name})
+    if n_true == 0:
+        raise Inconclusive("ENCODING-FAILED: read_demand_active_pdu has no accepting path")
     sd = find_fn(mir, r"^mcs::<impl at src/core/mcs\.rs[^>]*>::shutdown$")
     ssd = SymExec(sd, stats).run()
     best = max(ssd.finished, key=lambda p: (len(calls_on(p.events, r"x224::Client::<S>::shutdown$")), len(p.events)))
+    silent = [p for p in ssd.finished if calls_on(p.events, r"x224::Client::<S>::shutdown$") and not calls_on(p.events, r"x224::Client::<S>::write")]
+    obs.append({"id": "mcs::shutdown:ultimatum-on-every-path", "ok": not silent, "functions": [sd.name],
+                "detail": "every path that closes the transport has sent the disconnect-provider ultimatum first" if not silent else "a path closes the transport without sending the ultimatum (%d paths)" % len(silent), "where": sd.name})
     wr = calls_on(best.events, r"x224::Client::<S>::write")
     sdn = calls_on(best.events, r"x224::Client::<S>::shutdown$")
     hdr = [resolve_source(best.events, i, e[4][0], depth=4) for i, e in calls_on(best.events, r"^mcs_pdu_header$")]
@@ -2223,6 +2274,8 @@ SESSION_NATIVE = _native("verif_replay_session_readers", "src/core/global.rs", "
             wrap(0x16, vec![0xea, 0x03, 0x01, 0x00, 0, 0]),
             wrap(0x17, data(0x1f, vec![1, 0, 0xea, 0x03])), wrap(0x17, data(0x14, vec![4, 0, 0, 0, 0, 0, 0, 0])), wrap(0x17, data(0x28, vec![0, 0, 0, 0, 3, 0, 4, 0])),
             wrap(0x17, data(0x2f, vec![0, 0, 0, 0])), wrap(0x17, data(0x99, vec![])), wrap(0x13, vec![]), wrap(0x1a, vec![1, 2, 3]),
+            wrap(0x17, data(0x28, vec![0xff, 0xff, 0xff, 0xff, 3, 0, 0xff, 0xff])), wrap(0x17, data(0x28, vec![5, 0, 5, 0, 3, 0, 4, 0])), wrap(0x17, data(0x28, vec![])),
+            wrap(0x17, data(0x1f, vec![])), wrap(0x17, data(0x14, vec![4, 0])),
         ];
         pdus.push(vec![]);
         for p in pdus.iter() {
@@ -2423,3 +2476,72 @@ def stream_write_all(ctx, mir, stats):
     return [{"id": "Stream::write:complete-or-error", "ok": ok, "functions": [f.name], "needs_native": True, "native": None if ok else LINK_NATIVE,
              "detail": "both transport arms hand the whole buffer to Write::write_all (all bytes delivered or an error), no hand-written retry loop" if ok else
              "Stream::write uses %d write_all / %d write calls, loop blocks %s: completeness now depends on a hand-written loop" % (len(wa), len(w1), cyc[:3]), "where": f.name}]
+
+
+LICENSE_NATIVE = _native("verif_replay_license_messages", "src/core/license.rs", """
+        // every message type, a spread of error codes / state transitions, blobs that are not UTF-8: value or error, no panic
+        for t in 0u16..256 {
+            for code in [0u32, 1, 2, 3, 4, 6, 7, 8, 9, 10, 11, 12, 0xffff_ffff].iter() {
+                for blob in [vec![], vec![0xffu8, 0xfe, 0xfd], vec![0xc3, 0x28], vec![b'o', b'k']].iter() {
+                    let mut body = code.to_le_bytes().to_vec();
+                    body.extend_from_slice(&2u32.to_le_bytes());
+                    body.extend_from_slice(&[4, 0, blob.len() as u8, 0]);
+                    body.extend_from_slice(blob);
+                    let size = (body.len() + 4) as u16;
+                    let mut m = vec![t as u8, 0x03, size as u8, (size >> 8) as u8];
+                    m.extend_from_slice(&body);
+                    let _ = client_connect(&mut Cursor::new(m));
+                }
+            }
+        }""")
+
+ALLOC_NATIVE = {"test": "verif_replay_fast_path_allocation", "files": {"src/core/global.rs": """
+#[cfg(test)]
+mod verif_replay_fast_path_allocation_mod {
+    use super::*;
+    use std::alloc::{GlobalAlloc, Layout, System};
+    use std::sync::atomic::{AtomicUsize, Ordering};
+    struct Counting;
+    static PEAK_REQUEST: AtomicUsize = AtomicUsize::new(0);
+    unsafe impl GlobalAlloc for Counting {
+        unsafe fn alloc(&self, l: Layout) -> *mut u8 { PEAK_REQUEST.fetch_max(l.size(), Ordering::SeqCst); System.alloc(l) }
+        unsafe fn dealloc(&self, p: *mut u8, l: Layout) { System.dealloc(p, l) }
+        unsafe fn realloc(&self, p: *mut u8, l: Layout, n: usize) -> *mut u8 { PEAK_REQUEST.fetch_max(n, Ordering::SeqCst); System.realloc(p, l, n) }
+    }
+    #[global_allocator]
+    static A: Counting = Counting;
+    #[test]
+    fn verif_replay_fast_path_allocation() {
+        // a bitmap update announcing 65535 x 65535 pixels at 32 bpp with 1 byte of data, in a PDU of 30 bytes
+        let mut rect = vec![0u8; 18];
+        rect[8] = 0xff; rect[9] = 0xff; rect[10] = 0xff; rect[11] = 0xff; rect[12] = 32; rect[16] = 1;
+        rect.push(0x42);
+        let mut data = vec![1u8, 0, 1, 0];
+        data.extend_from_slice(&rect);
+        let mut pdu = vec![0x01u8, data.len() as u8, 0];
+        pdu.extend_from_slice(&data);
+        let mut c = Client::new(1007, 1003, 800, 600, KeyboardLayout::US, "x");
+        PEAK_REQUEST.store(0, Ordering::SeqCst);
+        let _ = c.read_fast_path(&mut Cursor::new(pdu), |_e| {});
+        let peak = PEAK_REQUEST.load(Ordering::SeqCst);
+        assert!(peak <= 4 * 65536, "a {}-byte allocation was requested for a 30-byte PDU", peak);
+    }
+}
+"""}}
+
+
+def wire_sized_allocations(fn_regex, native):
+    """E2/E3: explicit capacity requests (with_capacity / reserve) in the session readers are a may-alarm: every buffer
+    there is meant to come from a <= 16-bit length field through the record container; confirmed by an allocation-counting native test."""
+    def fn(ctx, mir, stats):
+        obs = []
+        for f in find_fn(mir, fn_regex, unique=False):
+            hits = call_blocks(f, r"::with_capacity$|::reserve$|::reserve_exact$|from_elem::<")
+            hits = [b for b in hits if fp_reachable(f, f.order[0], b, stats)]
+            obs.append({"id": "%s:no-wire-sized-capacity" % f.name[-45:], "ok": not hits, "functions": [f.name], "needs_native": True, "native": None if not hits else native,
+                        "detail": "no explicit capacity request in %s: buffers come from 16-bit length fields through the record container" % f.name.split("::")[-1] if not hits else
+                        "%s requests buffer capacity directly (%s): must stay proportional to the bytes received" % (f.name, [f.blocks[b].t["func"][-40:] for b in hits]), "where": f.name})
+        if not obs:
+            raise Inconclusive("ENCODING-FAILED: %s matched nothing" % fn_regex)
+        return obs
+    return fn
